@@ -8,7 +8,7 @@ from ..gen import G, I
 ID = "C07"
 LEVEL = "exploration"
 RULE = ("cases are a scene (module variables; factories whose locals are captured by the closures they return, singly, "
-        "as a list sharing one local, or nested two deep, or created inside an if / else / while / from block of a factory that shadows a captured variable with a same-named local, or over an OPTIONAL local that closures bump and reset to nil through `modify`, or over a local holding a list / a function that `modify` replaces by an equal-looking new value; readers / setters / incrementers / shadowing bodies; higher-order "
+        "as a list sharing one local, or nested two deep, or created inside an if / else / while / from block of a factory that shadows a captured variable with a same-named local, or over an OPTIONAL local that closures bump and reset to nil through `modify`, or taking a VALUE out of a list element / map entry with `modify` while another closure writes that cell, or over a local holding a list / a function that `modify` replaces by an equal-looking new value; readers / setters / incrementers / shadowing bodies; higher-order "
         "callers that deliberately own locals with the same names as captured variables) plus a history of up to 12 steps "
         "(create instance, call closure directly / through an alias / through a list / through a higher-order function / "
         "inside a block, owner writes in every form - assignment, op-assignment, assignment inside a block, `?=` as statement / as `if` or `while` condition / inside a block, at module level and inside a factory after the closure exists -, print, is_closure()); a print follows every step. Oracle = reference interpreter "
@@ -58,6 +58,11 @@ def body_for(kind, v, w=None, k=1):
         return ("fn", [], "int", [("decl", "go", None, I(0), ()),
                                   ("while", ("bin", "<", V("go"), I(1)), [("decl", "go", None, ("bin", "+", V("go"), I(1)), ()), ("decl", v, None, I(70 + k), ())]),
                                   ("decl", "late", None, ("fn", [], "int", [("return", V(v))]), ()), ("return", ("call", V("late"), []))])
+    if kind == "afterloop":
+        # a from loop whose COUNTER is named like the captured variable; after the loop - in a closure created there - the name
+        # means the captured variable again (the counter is gone)
+        return ("fn", [], "int", [("decl", "acc", None, I(0), ()), ("from", I(0), I(k + 1), False, None, v, [("decl", "acc", None, ("bin", "+", V("acc"), V(v)), ())]),
+                                  ("decl", "late", None, ("fn", [], "int", [("return", V(v))]), ()), ("return", ("bin", "+", ("bin", "*", ("call", V("late"), []), I(100)), V("acc")))])
     if kind == "ifshadow":
         return ("fn", [], "int", [("if", ("bin", ">=", I(k), I(0)), [("decl", v, None, I(70 + k), ())], None),
                                   ("from", I(0), I(1), False, None, None, [("return", V(v))]), ("return", I(0 - 1))])
@@ -99,7 +104,7 @@ def cases(draw):
         local = g.choice(mvars) if g.chance(30) else "c%d" % fi
         if local in mvars:
             g.label("factory-local-shadows-module-var")
-        shape = g.weighted([(3, "single"), (3, "pair"), (2, "nested"), (1, "mixed"), (3, "blockcreate"), (2, "elemwrite"), (2, "optstate"), (2, "liststate"), (2, "fnstate"), (3, "ownerwrite")])
+        shape = g.weighted([(3, "single"), (3, "pair"), (2, "nested"), (1, "mixed"), (3, "blockcreate"), (2, "elemwrite"), (2, "optstate"), (2, "liststate"), (2, "fnstate"), (3, "ownerwrite"), (3, "modifyfromcell")])
         if shape == "elemwrite":
             # a closure whose ONLY use of a captured list is as the target of an element assignment / op-assignment (and whose
             # only use of a captured int is as the index) must still capture them
@@ -118,6 +123,31 @@ def cases(draw):
             facts.append((fname, "list"))
             stmts.append(("decl", fname, None, ("fn", [("init", "int")], ("list", FI), body), ()))
             g.label("captured-only-as-assignment-target:" + wk)
+            continue
+        if shape == "modifyfromcell":
+            # `modify v = <element / map entry>` stores the VALUE the cell holds at that moment: a later write to the cell (by the
+            # other closure) must not show through v
+            src = g.choice(["element", "entry", "element-of-nested"])
+            k = g.int(1, 9)
+            if src == "element":
+                decl = ("decl", "cells", ("list", "int"), ("list", [V("init"), I(0)]), ())
+                read = ("index", V("cells"), I(0))
+                write = ("opassign", ("index", V("cells"), I(0)), "+=", I(k))
+            elif src == "entry":
+                decl = ("decl", "cells", None, ("map", "str", "int", [(S("a"), V("init"))]), ())
+                read = ("or", ("index", V("cells"), S("a")), I(0 - 1))
+                write = ("seti", V("cells"), S("a"), ("bin", "+", ("or", ("index", V("cells"), S("a")), I(0)), I(k)))
+            else:
+                decl = ("decl", "cells", ("list", ("list", "int")), ("list", [("list", [V("init")])]), ())
+                read = ("index", ("index", V("cells"), I(0)), I(0))
+                write = ("opassign", ("index", V("row"), I(0)), "+=", I(k))
+            take = ("fn", [], "int", [("decl", "held", None, read, ("modify",)), ("return", V("held"))])
+            bump = ("fn", [], "int", ([("decl", "row", None, ("index", V("cells"), I(0)), ())] if src == "element-of-nested" else []) + [write, ("return", V("held"))])
+            body = [decl, ("decl", "held", None, I(0 - 5), ()), ("decl", "fa", None, take, ()), ("decl", "fb", None, bump, ()),
+                    ("decl", "out", ("list", FI), ("list", [V("fa"), V("fb")]), ()), ("return", V("out"))]
+            facts.append((fname, "list"))
+            stmts.append(("decl", fname, None, ("fn", [("init", "int")], ("list", FI), body), ()))
+            g.label("feat:modify-from-a-cell:" + src)
             continue
         if shape == "ownerwrite":
             # the OWNER writes its variable after the closure over it exists, in every form the language has for a write: the
@@ -212,7 +242,7 @@ def cases(draw):
             g.label("closure-created-in-block-over-shadowing-local:" + where)
             continue
         if shape == "single":
-            kind = g.choice(["inc", "read", "condinc", "shadow", "loopsum", "mcallarg", "localcopy", "inctwice", "loopshadow", "loopshadowinner", "ifshadow"])
+            kind = g.choice(["inc", "read", "condinc", "shadow", "loopsum", "mcallarg", "localcopy", "inctwice", "loopshadow", "loopshadowinner", "ifshadow", "afterloop"])
             body = [("decl", local, None, V("init"), ()), ("return", body_for(kind, local, k=g.int(1, 3)))]
             facts.append((fname, "int"))
             stmts.append(("decl", fname, None, ("fn", [("init", "int")], FI, body), ()))
@@ -239,7 +269,7 @@ def cases(draw):
     nm = g.int(1, 4)
     for ci in range(nm):
         v = g.choice(mvars)
-        kind = g.choice(["read", "inc", "set", "shadow", "pure", "condinc", "read2", "loopsum", "mcallarg", "localcopy", "inctwice", "loopshadow", "loopshadowinner", "ifshadow"])
+        kind = g.choice(["read", "inc", "set", "shadow", "pure", "condinc", "read2", "loopsum", "mcallarg", "localcopy", "inctwice", "loopshadow", "loopshadowinner", "ifshadow", "afterloop"])
         name = "m%d" % ci
         if kind == "read2":
             stmts.append(("decl", name, None, body_for(kind, v, g.choice(mvars)), ()))
